@@ -121,6 +121,25 @@ def make_pypred(yp, rows, raise_at, yield_val=False, nparams=None):
     return eval('lambda %s: impl(%s)' % (names, names), {'impl': impl})
 
 
+_SCRIPT_DIR = []
+_SCRIPT_LOCK = __import__('threading').Lock()
+
+
+def cleanup_scripts():
+    import shutil
+    while _SCRIPT_DIR:
+        shutil.rmtree(_SCRIPT_DIR.pop(), True)
+
+
+def _script_path(k):
+    if not _SCRIPT_DIR:
+        import tempfile, atexit, shutil
+        d = tempfile.mkdtemp(prefix='yldverif-scripts-')
+        _SCRIPT_DIR.append(d)
+        atexit.register(cleanup_scripts)
+    return '%s/script%d.py' % (_SCRIPT_DIR[0], k)
+
+
 class RealEngine:
     def __init__(self):
         self.yp = E.YP()
@@ -140,7 +159,15 @@ class RealEngine:
             except NameError:
                 return Sym('ok')
             return Sym('load-did-not-fail')
-        self.yp.load_script_from_string(code, overwrite=overwrite)
+        if len(text) % 2:
+            # through a file: the same two paths are rewritten and loaded again and again, by every engine
+            path = _script_path(len(text) // 2 % 2)
+            with _SCRIPT_LOCK:      # write + load is one step of the history, also when engines run on threads
+                with open(path, 'w') as f:
+                    f.write(code)
+                self.yp.load_script_from_file(path, overwrite=overwrite)
+        else:
+            self.yp.load_script_from_string(code, overwrite=overwrite)
         return Sym('ok')
 
     def regpy(self, name, arity, rows, raise_at, style='explicit', yield_val=False):
